@@ -53,6 +53,10 @@ def run(chk: Check, proj: Project) -> None:
 
     chk.rule("S10", "every function on the render routes that hands its parameters on to the next one (Component.render -> _render -> _render_impl -> _render_with_id, render_to_response -> render, ComponentNode.render -> _render, resolve_fills -> _extract_fill_content ...) hands on EVERY parameter the two signatures share, positional ones in the position of the same name")
     generic.forwarding(chk, "S10", proj, w.cg, ["component", "components.dynamic", "slots", "component_registry", "node", "provide"], floor=6)
+    from . import C14 as _C14
+
+    chk.borrow("S14", "a slot looks its fills up under the render id of ITS component: ids come from the OS entropy source at full length - ids drawn from Python's process-global PRNG repeat when user code seeds `random` (a reproducible shuffle in get_context_data), a child created while its parent's template is still rendering then takes the parent's id, overwrites its entry in the context cache, and the parent's remaining slots print the child's fills (shared with C14-S2)",
+               lambda sub: _C14.s2(sub, proj, w), only=lambda o: "entropy" in o.construct or "full-length" in o.construct)
     from . import C07 as _C07
 
     def _slot_state(sub):
